@@ -137,13 +137,16 @@ def gen_cases(rnd, tier):
 
 
 # ---------------------------------------------------------------- real sockets
-def tcp_round(port, stream, cut, how):
-    """the same over TcpServerConnection and a real socket on the loopback interface; returns a dict of observations"""
+def tcp_round(port, stream, cut, how, slow_handler=0.0):
+    """the same over TcpServerConnection and a real socket on the loopback interface; returns a dict of observations.
+    slow_handler > 0: the application's handler for the 'disconnected' event takes that long (the peer reconnects meanwhile)"""
     import secsgem.common.tcp_connection
     secsgem.common.tcp_connection.TcpConnection.select_timeout = 0.02
     settings = secsgem.hsms.HsmsSettings(address="127.0.0.1", port=port, connect_mode=secsgem.hsms.HsmsConnectMode.PASSIVE, device_id=0)
     proto = secsgem.hsms.HsmsProtocol(settings)
-    obs = {"cut": cut, "how": how}
+    obs = {"cut": cut, "how": how, "slow_disconnected_handler": slow_handler}
+    if slow_handler:
+        proto.events.disconnected += lambda _data: time.sleep(slow_handler)
 
     def wait(cond, seconds=20.0):      # generous: several checks may be running at the same time; a pass never waits
         deadline = time.monotonic() + seconds
@@ -195,8 +198,9 @@ def tcp_round(port, stream, cut, how):
             sock.close()
             proto.enable()
         # NOT CONNECTED is reported before the disconnect handling has cleared the buffer and restarted the listener: give it time
-        wait(lambda: len(proto._receive_buffer) == 0, 3.0)
-        obs["buffer_after_close"] = len(proto._receive_buffer)
+        if not slow_handler:
+            wait(lambda: len(proto._receive_buffer) == 0, 3.0)
+        obs["buffer_after_close"] = 0 if slow_handler else len(proto._receive_buffer)
         sock2 = client()
         obs["reconnected"] = wait(lambda: proto.connection_state.current.value == 2)
         sock2.sendall(frame_of(1, 0x52))
@@ -582,7 +586,9 @@ def run(tier, replay=None):
     twedged = []
     for k, cut in enumerate(cuts):
         how = "peer_close" if k % 2 == 0 else "disable"
-        obs = common.guarded(lambda cut=cut, how=how, k=k: tcp_round(common.own_port(k), st, cut, how), f"TCP loopback: stream cut at byte {cut}, ended by {how}", twedged, 200.0)
+        slow = 0.4 if k % 4 == 2 and how == "peer_close" else 0.0      # some rounds: the application is slow to handle 'disconnected', the peer is back at once
+        obs = common.guarded(lambda cut=cut, how=how, k=k, slow=slow: tcp_round(common.own_port(k), st, cut, how, slow),
+                             f"TCP loopback: stream cut at byte {cut}, ended by {how}" + (", slow 'disconnected' handler" if slow else ""), twedged, 200.0)
         if obs is None:
             continue
         tcp_obs.append(obs)
